@@ -2,7 +2,7 @@ use crate::event;
 use axelar_gas_service::AxelarGasServiceClient;
 use axelar_gateway::AxelarGatewayMessagingClient;
 use axelar_soroban_std::types::Token;
-use soroban_sdk::{contract, contractimpl, Address, Bytes, Env, String};
+use soroban_sdk::{contract, contractimpl, panic_with_error, Address, Bytes, Env, String};
 
 use crate::storage_types::DataKey;
 
@@ -24,7 +24,8 @@ impl AxelarExecutableInterface for Example {
         source_address: String,
         payload: Bytes,
     ) {
-        let _ = Self::validate_message(&env, &source_chain, &message_id, &source_address, &payload);
+        Self::validate_message(&env, &source_chain, &message_id, &source_address, &payload)
+            .unwrap_or_else(|err| panic_with_error!(env, err));
 
         event::executed(&env, source_chain, message_id, source_address, payload);
     }
